@@ -589,7 +589,7 @@ class C08(Property):
     id = "C08"
     prop_modules = ["CobaVerif.Props.C08"]
     quick_n = 2000
-    thorough_n = 30000
+    thorough_n = 22000
     search_n = 1500
     case_timeout = 900
     workers = 8
@@ -935,7 +935,11 @@ class C08(Property):
         bad = {"outs": [], "err": "ValueError", "gen": False}
         por = [(1, 1, [one(0)]), (1, 1, [one(0), one(1)]), (1, 2, [one(0), one(1)]), (2, 0, [one(0)]), (2, 1, [one(0)]), (2, 1, [bad]),
                (1, 1, [bad, one(1)]), (2, 0, [one(0), one(1)]), (2, 1, [one(0), one(1)]), (2, 1, [bad, one(1)])]
-        return [{"mode": "dfs", "por": True, "n": n, "m": m, "items": items, "abandon": None, "budget": 60000, "wall": 780} for n, m, items in por[::-1]] + plain
+        small = [{"mode": "dfs", "por": True, "n": n, "m": m, "items": items, "abandon": None, "budget": 60000, "wall": 240} for n, m, items in por[:7]]
+        big = []
+        for n, m, items in por[7:]:
+            big += self.por_roots({"mode": "dfs", "por": True, "n": n, "m": m, "items": items, "abandon": None, "budget": 60000, "wall": 300}, want=40)
+        return big + small + plain
 
     # ---- evaluation
     def evaluate(self, case, driver):
@@ -1041,6 +1045,42 @@ class C08(Property):
             agg["tags"].append("wrap:CobaMultiprocessor")
         return agg
 
+    def por_roots(self, case, want=24, maxdepth=12):
+        """split ONE sleep-set enumeration into subtrees that run as separate cases (on all workers): a subtree = the choices
+        imposed at the first scheduling points + the sleep set the sequential enumeration would have at its root (siblings
+        explored earlier whose pending segment is independent of everything executed since).  Same total work, same coverage."""
+        from props import c08_sched as S
+        base = dict(case, mode="sched", sched={"det": True})
+
+        def probe(r, sleep):
+            frames = []
+            run_scheduled(base, chooser=S.PorChooser(frames, r, sleep))
+            return frames
+
+        nodes, leaves = [([], {})], []
+        while nodes and len(nodes) + len(leaves) < want:
+            r, sleep = nodes.pop(0)
+            if len(r) >= maxdepth:
+                leaves.append((r, sleep))
+                continue
+            frames = probe(r, sleep)
+            if len(frames) <= len(r):
+                leaves.append((r, sleep))          # the schedule ends at this point
+                continue
+            names = frames[len(r)]["runnable"]
+            done = {}
+            for nm in names:
+                if nm in sleep:
+                    continue
+                fr2 = probe(r + [nm], {})
+                seg = (fr2[len(r)]["seg"] or []) if len(fr2) > len(r) else []
+                cand = dict(sleep)
+                cand.update(done)
+                child_sleep = {u: sg for u, sg in cand.items() if S.seg_indep(sg, seg)}
+                nodes.append((r + [nm], child_sleep))
+                done[nm] = seg
+        return [dict(case, root=r, root_sleep=sl) for r, sl in leaves + nodes]
+
     def evaluate_por(self, case, driver):
         """COMPLETE enumeration of the schedules of one configuration up to commutation of independent steps: stateless DFS
         with sleep sets over the independence table `Coba.C08.indep` (sound by theorem `step_comm` / `swap_adjacent`: every
@@ -1051,8 +1091,9 @@ class C08(Property):
         frames, runs, pruned, complete, agg, pairs = [], 0, 0, False, None, []
         import time as _t
         t_end = _t.time() + case.get("wall", 240)
+        forced = list(case.get("root") or [])
         while runs < budget and _t.time() < t_end:
-            ch = S.PorChooser(frames)
+            ch = S.PorChooser(frames, forced, case.get("root_sleep"))
             run = run_scheduled(base, chooser=ch)
             runs += 1
             for pr in ch.pairs:
@@ -1068,7 +1109,7 @@ class C08(Property):
                     sched_desc = [f["chosen"] for f in frames][:60]
                     out["fails"] = [dict(f, what=f["what"] + " [schedule %s]" % sched_desc) for f in out["fails"]]
                     break
-            while frames:
+            while len(frames) > len(forced):
                 fr = frames[-1]
                 if fr["chosen"] is not None:
                     fr["done"][fr["chosen"]] = fr["seg"] or []
@@ -1077,8 +1118,8 @@ class C08(Property):
                     fr["chosen"], fr["seg"] = free[0], None
                     break
                 frames.pop()
-            if not frames:
-                complete = True
+            if len(frames) <= len(forced):
+                complete = True           # the whole (sub)tree below the imposed root has been enumerated
                 break
         if agg is None:
             agg = {"fails": [], "tags": [], "impl": {}, "model": None}
